@@ -128,6 +128,7 @@ def parse_stream(lines):
 
 
 SWITCH = 1.0e-6
+WILD = 1.0e-2
 FD_AGREE = 0.02  # the two numerical Jacobians must agree within 2 % of the mismatch they both show
 
 
@@ -188,6 +189,10 @@ def judge(steps_by_h, groups, pnames, pvars=(), fvar=None):
                 if fmid <= SWITCH or (ff and len(ff[0]) == 1 and ff[0][0] == 1.0 and z[fvar[0]] != 0):
                     # the porosity is clamped to [0, upper bound] (f equation replaced by f + df = bound)
                     why = why or "switching.porosity_bound"
+            if ia["err"] * max(1, len(z)) > WILD:
+                # round-off of the centered differences is ~ u*|f|/h: with |f| > 1e-2 (strain units; a converging iterate
+                # has |f| <~ 1e-3) it reaches the 1e-5 tolerance for h = 1e-8.  Counted, not judged.
+                why = why or "fd_noise.large_residual"
             if why:
                 out["excluded"][why] = out["excluded"].get(why, 0) + 1
                 continue
@@ -571,8 +576,8 @@ PROBES = [
 def expand_scales(case, parameters):
     """scale_seed -> explicit factors (needs the parameter list of the built library)"""
     cfg = case["prog"].get("cfg", {})
-    # Drucker 1949 stays at c = 1 in the pool (known finding for c != 1)
-    drucker = any("Drucker1949" in (fl["crit"], fl.get("fcrit")) for fl in cfg.get("flows", []))
+    # Drucker 1949 / Cazacu 2001 stay at c = 1 in the pool (known findings for c != 1)
+    drucker = any(c in (fl["crit"], fl.get("fcrit")) for fl in cfg.get("flows", []) for c in ("Drucker1949", "Cazacu2001"))
     for L in case["loadings"]:
         if "scale_seed" in L and "scale" not in L:
             r = random.Random(L["scale_seed"])
